@@ -80,6 +80,8 @@ impl<T> ParSink<T> {
 
     /// Stores a computation result `element` with a serial id `idx`.
     pub fn push(&self, idx: usize, element: T) {
+        #[cfg(flacenc_verif)]
+        crate::verif_hook::before(crate::verif_hook::Op::Lock, crate::verif_hook::Obj::ResultSink(idx), &|| crate::verif_hook::lock_ready(&self.data));
         let mut data = self.data.lock().expect(panic_msg::MUTEX_LOCK_FAILED);
         data.insert(idx, element);
     }
@@ -140,6 +142,8 @@ impl ParFrameBuf {
     /// If this returns None, workder thread must immediately stop.
     #[inline]
     pub fn pop_encode_queue(&self) -> Option<usize> {
+        #[cfg(flacenc_verif)]
+        crate::verif_hook::before(crate::verif_hook::Op::Recv, crate::verif_hook::Obj::EncodeQ, &|| crate::verif_hook::recv_ready(&self.encode_queue.1));
         self.encode_queue
             .1
             .recv()
@@ -149,6 +153,8 @@ impl ParFrameBuf {
     /// Locks `FrameBuf` with the specified id and returns `MutexGuard`.
     #[inline]
     pub fn lock_buffer(&self, bufid: usize) -> std::sync::MutexGuard<'_, NumberedFrameBuf> {
+        #[cfg(flacenc_verif)]
+        crate::verif_hook::before(crate::verif_hook::Op::Lock, crate::verif_hook::Obj::Buffer(bufid), &|| crate::verif_hook::lock_ready(&self.buffers[bufid]));
         self.buffers[bufid]
             .lock()
             .expect(panic_msg::MUTEX_LOCK_FAILED)
@@ -157,6 +163,8 @@ impl ParFrameBuf {
     /// Requests refill for `FrameBuf` with the specified id.
     #[inline]
     pub fn enqueue_refill(&self, bufid: usize) {
+        #[cfg(flacenc_verif)]
+        crate::verif_hook::before(crate::verif_hook::Op::Send, crate::verif_hook::Obj::RefillQ, &|| crate::verif_hook::send_ready(&self.refill_queue.0));
         self.refill_queue
             .0
             .send(bufid)
@@ -165,6 +173,8 @@ impl ParFrameBuf {
 
     #[inline]
     pub fn recv_refill_request(&self) -> usize {
+        #[cfg(flacenc_verif)]
+        crate::verif_hook::before(crate::verif_hook::Op::Recv, crate::verif_hook::Obj::RefillQ, &|| crate::verif_hook::recv_ready(&self.refill_queue.1));
         self.refill_queue
             .1
             .recv()
@@ -174,6 +184,8 @@ impl ParFrameBuf {
     #[inline]
     pub fn enqueue_encode(&self, bufid: usize) -> bool {
         let starved = self.encode_queue.0.is_empty();
+        #[cfg(flacenc_verif)]
+        crate::verif_hook::before(crate::verif_hook::Op::Send, crate::verif_hook::Obj::EncodeQ, &|| crate::verif_hook::send_ready(&self.encode_queue.0));
         self.encode_queue
             .0
             .send(Some(bufid))
@@ -184,6 +196,8 @@ impl ParFrameBuf {
     #[inline]
     pub fn request_stop(&self, workers: usize) {
         for _i in 0..workers {
+            #[cfg(flacenc_verif)]
+            crate::verif_hook::before(crate::verif_hook::Op::Send, crate::verif_hook::Obj::EncodeQ, &|| crate::verif_hook::send_ready(&self.encode_queue.0));
             self.encode_queue
                 .0
                 .send(None)
@@ -211,16 +225,22 @@ impl ParContext {
             let receiver = process_queue.1.clone();
             let inner = Arc::clone(&inner);
             thread::spawn(move || loop {
+                #[cfg(flacenc_verif)]
+                crate::verif_hook::before(crate::verif_hook::Op::Recv, crate::verif_hook::Obj::HashQ, &|| crate::verif_hook::recv_ready(&receiver));
                 let data: Vec<u8> = receiver.recv().expect(panic_msg::MPMC_RECV_FAILED);
                 if data.is_empty() {
                     break;
                 }
+                #[cfg(flacenc_verif)]
+                crate::verif_hook::before(crate::verif_hook::Op::Lock, crate::verif_hook::Obj::HashCtx, &|| crate::verif_hook::lock_ready(&inner));
                 let mut inner = inner.lock().expect(panic_msg::MUTEX_LOCK_FAILED);
                 inner
                     .fill_le_bytes(&data, bytes_per_sample)
                     .expect(panic_msg::NO_ERROR_EXPECTED);
             })
         };
+        #[cfg(flacenc_verif)]
+        crate::verif_hook::spawned(thread_handle.thread().id(), crate::verif_hook::Role::Hasher);
         Self {
             inner,
             thread_handle,
@@ -231,6 +251,8 @@ impl ParContext {
     }
 
     fn enqueue_buffer(&self) {
+        #[cfg(flacenc_verif)]
+        crate::verif_hook::before(crate::verif_hook::Op::Send, crate::verif_hook::Obj::HashQ, &|| crate::verif_hook::send_ready(&self.process_queue.0));
         self.process_queue
             .0
             .send(self.bytebuf.clone())
@@ -240,6 +262,8 @@ impl ParContext {
     /// Sends stop signal and returns the number of remaining blocks in queue.
     fn request_stop(&self) -> usize {
         let ret = self.process_queue.0.len();
+        #[cfg(flacenc_verif)]
+        crate::verif_hook::before(crate::verif_hook::Op::Send, crate::verif_hook::Obj::HashQ, &|| crate::verif_hook::send_ready(&self.process_queue.0));
         self.process_queue
             .0
             .send(vec![])
@@ -248,6 +272,8 @@ impl ParContext {
     }
 
     fn finalize(self) -> Context {
+        #[cfg(flacenc_verif)]
+        crate::verif_hook::before(crate::verif_hook::Op::Join, crate::verif_hook::Obj::Thread(self.thread_handle.thread().id()), &|| self.thread_handle.is_finished());
         self.thread_handle
             .join()
             .expect(panic_msg::THREAD_JOIN_FAILED);
@@ -299,6 +325,8 @@ fn feed_fixed_block_size<T: Source, C: Fill>(
     'feed: loop {
         let bufid = parbuf.recv_refill_request();
         {
+            #[cfg(flacenc_verif)]
+            crate::verif_hook::before(crate::verif_hook::Op::Lock, crate::verif_hook::Obj::Buffer(bufid), &|| crate::verif_hook::lock_ready(&parbuf.buffers[bufid]));
             let mut numbuf = parbuf.buffers[bufid]
                 .lock()
                 .expect(panic_msg::MUTEX_LOCK_FAILED);
@@ -412,6 +440,10 @@ pub fn encode_with_fixed_block_size<T: Source>(
         })
         .collect();
 
+    #[cfg(flacenc_verif)]
+    for h in &join_handles {
+        crate::verif_hook::spawned(h.thread().id(), crate::verif_hook::Role::Worker);
+    }
     let src_len_hint = src.len_hint();
     let context = ParContext::new(Context::new(src.bits_per_sample(), src.channels()));
     let (feed_stats, context) =
@@ -433,6 +465,8 @@ pub fn encode_with_fixed_block_size<T: Source>(
         .set_md5_digest(&context.md5_digest());
 
     for h in join_handles {
+        #[cfg(flacenc_verif)]
+        crate::verif_hook::before(crate::verif_hook::Op::Join, crate::verif_hook::Obj::Thread(h.thread().id()), &|| h.is_finished());
         h.join().expect(panic_msg::THREAD_JOIN_FAILED);
     }
 
